@@ -80,6 +80,13 @@ theorem cfbbuf_eq_blocks_dec (C : Cipher) (hC : C.Valid) (w : Nat) (iv : Bytes) 
   simp only [C08.bufRun, List.flatten_cons, List.flatten_nil, List.append_nil] at h
   rw [h, RS.init, RS.run_blocks_dec C hC blocks iv hiv hb, Cfb.init, C03.cfb_decBlocks_eq]
 
+/-- **buffered CFB (any chunking) = one-shot CFB, every byte length, any backend width.** -/
+theorem cfbbuf_eq_oneshot (C : Cipher) (hC : C.Valid) (w : Nat) (iv : Bytes) (hiv : iv.length = C.bs)
+    (pieces : List Bytes) :
+    (C08.bufRun false C (CfbBuf.init C iv) pieces).1.flatten
+      = asyncInOut C.bs (Cfb.encBlocks C w) (Cfb.encBlock C) (Cfb.init C iv) pieces.flatten := by
+  rw [C08.cfbbuf_any_chunking false C hC iv hiv pieces, C03.cfb_oneshot_enc, C08.cfb_oneshot_eq_reference C hC iv _ hiv]
+
 /-! ### a keystream core driven block-wise = the byte-level cipher on whole blocks -/
 
 theorem core_eq_wrapper {σ : Type} {K : Core σ} {M : Nat} {ks : Nat → Bytes} {Rep : σ → Nat → Prop}
